@@ -19,8 +19,8 @@ CLAIMED = {
    note="The verifier is sequential: uniqueness under concurrency follows from atomicity of the increment (trusted sync/atomic) plus the proved 'stored id = increment result'; whole-line atomicity is log.Logger's (trusted). The characters fmt.Sprintf produces and Switch/Close racing with loggers are not decided. Trusted: context.WithValue/Value contract, govc, go/ssa, solvers.",
    design="7/C18"),
  "C07": dict(
-   text="Zero-annotation panic-freedom obligations (index, slice bounds, nil dereference, make size, division, type assertion, explicit panic) generated for every instruction of the listed decoders and enum helpers, for ANY input bytes and all 256/65536 enum values: aac (Decode, SetASC, ASC codec, all String/ToHz/ToProfile/ToObjectType), flv (demuxer, both packagers, every String/ToHz/OpusToHz/From), avc (NALU/record/sample decoders, String), amf0 scalars, Discovery and the container decoders (objectBase.unmarshal with both closures, Object/EcmaArray/StrictArray.UnmarshalBinary: panic-free and terminating for all inputs, given the interface contract of the child values), rtmp (basic header, message header, payload step, ReadMessage loop, control packet decoders, onMessageArrivated); loops carry termination measures where listed.",
-   note="PARTIAL: not covered - RTMP command packet decoders, websocket frame reader, JWS/JWE/JWK parsing, OCSP, JSON+ reader, and the linear-time bound (no cost accounting). Trusted: govc, go/ssa, solvers.",
+   text="Zero-annotation panic-freedom obligations (index, slice bounds, nil dereference, make size, division, type assertion, explicit panic) generated for every instruction of the listed decoders and enum helpers, for ANY input bytes and all 256/65536 enum values: aac (Decode, SetASC, ASC codec, all String/ToHz/ToProfile/ToObjectType), flv (demuxer, both packagers, every String/ToHz/OpusToHz/From), avc (NALU/record/sample decoders, String), amf0 scalars, Discovery and the container decoders (objectBase.unmarshal with both closures, Object/EcmaArray/StrictArray.UnmarshalBinary: panic-free and terminating for all inputs, given the interface contract of the child values), rtmp (basic header, message header, payload step, ReadMessage loop, control packet decoders, onMessageArrivated, and the whole command decoding path: DecodeMessage, parseAMFObject, connect/connect-response/call/createStream-response/publish/play packet decoders), websocket (advanceFrame, handleProtocolError, close-code table); loops carry termination measures where listed.",
+   note="ASSUMED (listed in the evidence): a successfully decoded AMF0 object satisfies 4 <= Size() <= len(input) (needs induction over the property list; supported by the bounded container lemmas); Size() of containers is treated as a pure function of the amf0 heap components (its reads are checked when it is verified itself). PARTIAL: not covered - JWS/JWE/JWK parsing, OCSP, JSON+ reader, and the linear-time bound (no cost accounting). Trusted: govc, go/ssa, solvers.",
    design="7/C07"),
  "C04": dict(
    text="Ghost lock-set discipline and ordering contracts on the real code: the request is in the transaction table before WriteMessage is called (call-site assertion in WritePacket); every read/write/delete of the table happens with its mutex held (guarded_by obligations at each map access); the mutex is released on every path of WritePacket and parseAMFObject; lookup and delete of a response's transaction happen in one critical section and consume the entry exactly once; frames show the reader API and the writer API share only the guarded table.",
